@@ -6,8 +6,10 @@
   parameters, key life-cycle, the independent request reader `Spec.parseRequest`, the conforming
   reply generator `Spec.renderReply`) and the header phase of `Model/Core.feedBody`.
 
-  `digest` (SHA-1 + base64 of key ++ GUID) is a *parameter*: every statement holds for every
-  challenge string `ch`.  `strict = true` is the repaired comparison of Sec-WebSocket-Accept,
+  The statements of this file hold for every expected accept value `ch`; that the value the code and the
+  model compare with is `b64encode (sha1 (key ++ GUID))` of the key sent in the request of the same attempt
+  is `Properties/C10_Digest.lean` (`challenge_is_digest`, `ready_iff_digest`).
+  `strict = true` is the repaired comparison of Sec-WebSocket-Accept,
   `strict = false` is what the pinned code does (`accept.lower() != challenge.lower()`, finding D5).
 -/
 import Lomond.Proofs.Http
